@@ -292,6 +292,10 @@ fn process_tcp_packet(
         }
     };
 
+    // The flow is stored under the key of the packet that opened it (client to server)
+    let stored_key: FlowKey =
+        if is_client { flow_key } else { (dst_ip, src_ip, dst_port, src_port) };
+
     if let Some(flow) = tcp_flow {
         if !tcp.payload().is_empty() {
             let tcp_data = TcpData { sequence: tcp.get_sequence(), data: Vec::from(tcp.payload()) };
@@ -359,7 +363,7 @@ fn process_tcp_packet(
             // Remove from http_flows if both request and response are parsed
             if flow.client_http_parsed && flow.server_http_parsed {
                 debug!("Both HTTP request and response parsed, removing from http_flows early");
-                http_flows.remove(&flow_key);
+                http_flows.remove(&stored_key);
                 return Ok(observable_http_package);
             }
 
@@ -369,7 +373,7 @@ fn process_tcp_packet(
                 != 0
             {
                 debug!("Connection closed or reset");
-                http_flows.remove(&flow_key);
+                http_flows.remove(&stored_key);
             }
         }
     } else if tcp.get_flags() & pnet::packet::tcp::TcpFlags::SYN != 0 {
